@@ -24,6 +24,10 @@ func (a *Analyzer) onElection(n *nodeState, r *ev.Rec) {
 		a.elCfg[lk] = map[uint64]*ev.Cfg{}
 	}
 	a.elCfg[lk][n.key.nid] = r.Cfg
+	a.elXfer[[3]uint64{n.key.cid, n.key.nid, t}] = n.xferPermit
+	if n.xferPermit {
+		a.stat("elections-with-transfer-permission")
+	}
 	// C11: only voters of their own latest configuration campaign
 	if r.Cfg == nil || !r.Cfg.IsVoter(n.key.nid) {
 		a.find("C11", "non-voter-starts-election", "", r.Q, "%s starts an election for term %d but is not a voter in its own latest configuration %s", n.key, t, cfgString(r.Cfg))
@@ -106,6 +110,9 @@ func (a *Analyzer) onStateChange(n *nodeState, r *ev.Rec) {
 		a.rep.Stats["leader-completeness-checks"] += int64(len(cm))
 		n.rounds = map[uint64]bool{}
 		n.leaderSince = r.Q
+	}
+	if st.State != "C" {
+		n.xferPermit = false // the permission ends with the candidacy
 	}
 	if st.State == "C" {
 		// C11: candidate must be voter of its own latest configuration
@@ -197,6 +204,15 @@ func (a *Analyzer) onRPC(n *nodeState, r *ev.Rec) {
 		} else {
 			a.stat("votes-refused:" + r.Res)
 		}
+		// C17 / C16: the permission to disrupt a live leader exists only for the
+		// candidacy that a timeout-now request started
+		if r.Xfer && !a.isWire(r.Src) {
+			a.stat("vote-requests-with-transfer-flag")
+			if ok, known := a.elXfer[[3]uint64{cid, r.Src, r.ReqTerm}]; known && !ok {
+				a.find("C17", "transfer-permission-without-timeout-now", "", r.Q, "%s handles a vote request of %d for term %d that claims leadership-transfer permission, but %d was not told to time out now for that candidacy", n.key, r.Src, r.ReqTerm, r.Src)
+				a.find("C16", "transfer-permission-without-timeout-now", "", r.Q, "%s handles a vote request of %d for term %d that claims leadership-transfer permission, but %d was not told to time out now for that candidacy", n.key, r.Src, r.ReqTerm, r.Src)
+			}
+		}
 		// C17: leader stability
 		if hadSt && !r.Xfer && leaderBefore != 0 && leaderBefore != r.Src {
 			a.stat("vote-requests-while-leader-known")
@@ -232,6 +248,13 @@ func (a *Analyzer) onRPC(n *nodeState, r *ev.Rec) {
 			a.stat("snapshot-installs:" + r.Res)
 			n.snapTouched = true
 			a.shape(fmt.Sprintf("inst:%d", n.key.nid))
+			if r.Res == "success" && hadSt && st.Prev == st.Last && st.Snap == r.A && r.Cfg != nil {
+				// the log was discarded: the membership is the label's (C12)
+				a.stat("installs-with-log-discarded")
+				if st.CfgL != r.Cfg.Index {
+					a.find("C12", "membership-after-install-not-label", "", r.Q, "%s installed snapshot %d labelled %s and discarded its log, but its latest configuration has index %d", n.key, r.A, cfgString(r.Cfg), st.CfgL)
+				}
+			}
 			if r.Res == "success" {
 				// C19/C02: an install never moves the snapshot backwards
 				if hadSt && st.Snap < n.st.Snap {
@@ -242,6 +265,9 @@ func (a *Analyzer) onRPC(n *nodeState, r *ev.Rec) {
 		if r.RPC == "timeoutNow" {
 			a.stat("timeout-now:" + r.Res)
 			voter := n.latest != nil && n.latest.IsVoter(n.key.nid)
+			if r.Res == "success" {
+				n.xferPermit = true
+			}
 			if !voter && r.Res == "success" {
 				a.find("C11", "timeout-now-accepted-by-non-voter", "", r.Q, "%s accepted timeout-now although it is not a voter in %s", n.key, cfgString(n.latest))
 			}
